@@ -173,7 +173,12 @@ func (c *ChangesCursor) Next() error {
 			return nil
 		}
 		if de.NewValue != nil {
-			c.currentRow = de.NewValue.(*v1proto.Row)
+			row, _ := de.NewValue.(*v1proto.Row)
+			if row == nil || row.Deleted {
+				// a row deleted in the "to" version is not visible there
+				continue
+			}
+			c.currentRow = row
 			c.currentKey = de.Key.(*s3db.Key)
 			return nil
 		}
